@@ -249,6 +249,9 @@ def run_unit(name, repo=None, rlimit=None, outdir=None, extra_args=(), solver=No
                 tags = list(fn["props"])
             else:
                 tags = list(fn.get("implicit") or fn["props"])
+                for rg in fn.get("implicit_regions", []):
+                    if rg["first"] <= ps["line_start"] <= rg["last"]:
+                        tags = sorted(set(tags) | set(rg["tags"]))
         exit_loc = None
         for s in spans:
             if s is not ps and s.get("label"):
